@@ -102,6 +102,7 @@ def export_to_yaml(statechart: Statechart, filepath: str = None) -> str:
 
     yml = yaml.YAML(typ='safe', pure=True)
     yml.default_flow_style = False  # plain scalars are only safely re-read in block context
+    yml.width = 2 ** 31 - 1  # never fold: a plain scalar folded at consecutive spaces is re-read with one
     yml.dump(export_to_dict(statechart), output)
 
     if filepath:
